@@ -143,6 +143,8 @@ pub open spec fn u32_of_fourcc(f: FourCC) -> u32 {
 }
 
 /// decoding the encoding of a code gives the code back (used wherever a brand / handler code is read from the file)
+#[verifier::spinoff_prover]
+#[verifier::rlimit(200)]
 pub broadcast proof fn lemma_fourcc_roundtrip(v: u32)
     ensures u32_of_fourcc(#[trigger] fourcc_of_u32(v)) == v
 {
